@@ -8,7 +8,7 @@ from vk.build import build, pack_bp, unpack_bp
 
 ID = 'C05'
 RULE = ('Hypothesis-generated netlists x arbitrary non-negative float delays (not only dyadic; 4 independent entries per line) x stimuli over '
-        '{0,1,R,F} per input and lane with an arbitrary transition time x {c_reuse, strip_forks} independently for both simulators x capacities '
+        '{0,1,R,F} per input and lane with an arbitrary transition time of either sign x {c_reuse, strip_forks} independently for both simulators x capacities '
         '4..64 (overflow only removes transitions, so both clauses still apply) x WaveSim/WaveSimCuda. Differential oracle: the same stimulus through LogicSim(m=8) and the timing simulator; at every output and '
         'state element (s[3], s[6]) = (initial, final) component of the 8-valued code, and wherever the code is plain 0/1: s[4]=TMAX, s[5]=TMIN and '
         'the waveform has no finite entry. Random internal signals are tapped by extra outputs. non-trivial: some output is a hazard-free constant '
@@ -23,7 +23,7 @@ def cases(draw, tier):
     nl = draw(S.netlists(max_g=24 if big else 10, max_pi=4, max_st=2, need_d=True, clock_pins=False, po_taps=5))
     lanes = draw(st.one_of(st.integers(1, 6 if big else 3), st.integers(1, 6 if big else 3), st.integers(1, 6 if big else 3), st.sampled_from([33, 49, 65, 70])))      # sometimes more lanes than a mock-GPU block
     n = nl['pi'] + len(nl['st'])
-    stim = draw(st.lists(st.lists(st.tuples(st.sampled_from([0, 3, 5, 6]), st.integers(0, 4000)), min_size=lanes, max_size=lanes),
+    stim = draw(st.lists(st.lists(st.tuples(st.sampled_from([0, 3, 5, 6]), st.one_of(st.integers(0, 4000), st.integers(-2000, 4000))), min_size=lanes, max_size=lanes),
                          min_size=n, max_size=n))
     dpool = draw(st.lists(st.one_of(st.sampled_from([0, 0, 1]), st.integers(0, 3000)), min_size=8, max_size=24))
     return dict(nl=nl, lanes=lanes, stim=[[list(x) for x in row] for row in stim], dpool=dpool,
